@@ -19,6 +19,8 @@ def tables():
         'one': [('a', 1, 5, D('1'))],
         'gaps': [('a', 1, 1, D('1')), ('a', 4, 4, D('4')), ('b', 2, 2, D('2')), ('b', 3, 3, D('3')), ('c', 4, 9, D('9')), ('d', 1, 7, D('7')), ('e', 3, 6, D('6')), ('e', 4, 5, D('5'))],
         'empty': [],
+        # falsy keys (0, '') next to smaller and larger ones: 0 and '' are values, not NULL
+        'falsy': [('', -2, 1, D('1')), ('a', 0, 2, D('0')), ('', 0, 3, D('3')), ('b', -1, 4, D('4')), ('a', 3, 5, D('5')), ('b', 0, 6, D('-6'))],
         # NULL values in either pivot column: NULL is a value of its own, sorted first (as ORDER BY sorts it)
         'nulls': [('a', 1, 1, D('1')), (None, 1, 2, D('2')), ('a', None, 3, D('3')), (None, None, 4, D('4')), ('b', 2, 5, D('5')), (None, 2, 6, D('6'))],
     }
@@ -67,7 +69,8 @@ def expected(rows, first, second, rest, positions):
 
 
 def check(case):
-    tname, first, second, rest, byname, order = case
+    tname, first, second, rest, byname, order = case[:6]
+    orderby = case[6] if len(case) > 6 else ''
     rows = tables()[tname]
     targets = {'first': first, 'second': second}
     tlist = []
@@ -79,7 +82,10 @@ def check(case):
         piv = f'{first}, {second}'
     else:
         piv = f'{order.index("first") + 1}, {order.index("second") + 1}'
-    q = 'SELECT ' + ', '.join(tlist) + f' FROM #{tname} GROUP BY {first}, {second} PIVOT BY {piv}'
+    # an ORDER BY of the un-pivoted query does not change the pivoted table (rows ascending by the first column)
+    ob = {'': '', 'first-desc': f' ORDER BY {first} DESC', 'first-asc-second-desc': f' ORDER BY {first}, {second} DESC', 'pos-desc': f' ORDER BY {order.index("first") + 1} DESC, {order.index("second") + 1}',
+          'second-desc': f' ORDER BY {second} DESC'}[orderby]
+    q = 'SELECT ' + ', '.join(tlist) + f' FROM #{tname} GROUP BY {first}, {second}{ob} PIVOT BY {piv}'
     conn = make_conn(**{n: (COLS, r) for n, r in tables().items()})
     try:
         cur = conn.execute(q)
@@ -126,6 +132,9 @@ def cases(tier, seed):
                 for order in perms:
                     for byname in (True, False):
                         out.append((tname, first, second, rest, byname, list(order)))
+                for ob in ('first-desc', 'first-asc-second-desc', 'pos-desc', 'second-desc'):
+                    out.append((tname, first, second, rest, True, list(perms[0]), ob))
+                    out.append((tname, first, second, rest, False, list(perms[-1]), ob))
     return out
 
 
